@@ -306,7 +306,14 @@ def parseSetExpr : List Char → List (Char × Char)
 
 /-- the domain of `parseSetExpr`: no `]`, `[`, `\` (which close the set, open a
     nested set / class, escape).  A decidable predicate; the harness only
-    generates such expressions. -/
+    generates such expressions.  OUTSIDE this domain the total functions
+    `parseSetExpr`/`parseSetExpr?` are NOT what `re` does (confirmed on /repo,
+    Python 3.12: `"\\"`, `"a\\"` → `re.error`, the model compiles; `"\\d"` keeps the
+    digits, the model keeps `\` and `d`; `"a]b"` is the pattern `[^a]b]` — a class
+    followed by two literals —, the model reads three literals).  Every theorem
+    about a set expression therefore carries `SetExprPlain e`
+    (`Allowed.Supported`) as a hypothesis.  (`[` and a leading `]` are literals
+    for `re`, too; they are excluded to keep the domain simple.) -/
 def SetExprPlain (e : List Char) : Prop := ∀ c ∈ e, c ≠ ']' ∧ c ≠ '[' ∧ c ≠ '\\'
 
 instance (e : List Char) : Decidable (SetExprPlain e) :=
@@ -320,13 +327,30 @@ def parseSetExpr? (e : List Char) : Option (List (Char × Char)) :=
   else if (parseSetExpr e).all (fun r => decide (r.1.toNat ≤ r.2.toNat)) then some (parseSetExpr e)
   else none
 
+/-- membership in a list of literals / ranges (code points) -/
 def inRanges (rs : List (Char × Char)) (c : Char) : Bool :=
   rs.any fun r => r.1.toNat ≤ c.toNat && c.toNat ≤ r.2.toNat
 
+/-- the SET OF CHARACTERS an `allowed_symbols` value lets through (its
+    denotation; how the two non-trivial forms are APPLIED to a line is
+    `filterSymbols` — two different code paths, proved to agree with this
+    denotation in `filterSymbols_eq_map`). -/
 def Allowed.ok : Allowed → Char → Bool
   | .all, _ => true
   | .expr e, c => inRanges (parseSetExpr e) c
   | .table rs, c => inRanges rs c
+
+/-- the inputs on which the model claims to be the code: a set expression must
+    be plain (`SetExprPlain`).  Decidable. -/
+def Allowed.Supported : Allowed → Prop
+  | .expr e => SetExprPlain e
+  | _ => True
+
+instance : DecidablePred Allowed.Supported := fun a =>
+  match a with
+  | .all => isTrue trivial
+  | .expr e => inferInstanceAs (Decidable (SetExprPlain e))
+  | .table _ => isTrue trivial
 
 /-- does `create_event_file` raise `re.error` at :272, before anything else? -/
 def Allowed.badPattern : Allowed → Bool
@@ -338,11 +362,58 @@ def Allowed.isCallable : Allowed → Bool
   | .table _ => true
   | _ => false
 
-/-- `filter_symbols(line, replace=' ')` (262-274) -/
+/-! `filter_symbols(line, replace=' ')` (preprocess.py:262-274) is defined in one
+    of three ways, depending on the form of `allowed_symbols`.  The two
+    non-trivial ones are DIFFERENT code paths and are modelled separately. -/
+
+/-- the one-character pattern `[^items]` (sre: `IN [NEGATE, LITERAL…, RANGE…]`,
+    no flags) matches the character `c` iff NO item of the set matches it
+    (a negated set also matches a newline). -/
+def negClassMatches (items : List (Char × Char)) (c : Char) : Bool :=
+  !(items.any fun r => r.1.toNat ≤ c.toNat && c.toNat ≤ r.2.toNat)
+
+/-- `pattern.sub(repl, s)` for a pattern that matches exactly one character
+    (never the empty string): scan from the left; where the pattern matches,
+    emit `repl` and continue behind the match; elsewhere copy the character. -/
+def subChar (pat : Char → Bool) (repl : Char) : List Char → List Char
+  | [] => []
+  | c :: cs => if pat c then repl :: subChar pat repl cs else c :: subChar pat repl cs
+
+/-- the regex branch (272-274):
+    ```
+    not_in_symbols = re.compile(f"[^{allowed_symbols:s}]")
+    def filter_symbols(line, replace):
+        return not_in_symbols.sub(replace, line)
+    ``` -/
+def filterRegex (items : List (Char × Char)) (replace : Char) (line : List Char) : List Char :=
+  subChar (negClassMatches items) replace line
+
+/-- the callable branch (263-269): an index loop that writes into a copy.
+    ```
+    line_copy = list(line)
+    for ii in range(len(line)):
+        if not allowed_symbols(line[ii]):
+            line_copy[ii] = replace
+    return ''.join(line_copy)
+    ``` -/
+def filterCallableStep (allowed : Char → Bool) (replace : Char) (line : List Char)
+    (lineCopy : List Char) (ii : Nat) : List Char :=
+  match line[ii]? with
+  | some c => if allowed c then lineCopy else lineCopy.set ii replace
+  | none => lineCopy
+
+/-- … the loop over `range(len(line))`, starting from the copy -/
+def filterCallable (allowed : Char → Bool) (replace : Char) (line : List Char) : List Char :=
+  (List.range line.length).foldl (filterCallableStep allowed replace line) line
+
+/-- `filter_symbols(line, replace=' ')` (262-274): `'all'` returns the line; a
+    set expression goes through `re.sub` with the negated set; a callable
+    (given by the table of the characters it accepts) through the index loop. -/
 def filterSymbols (a : Allowed) (s : List Char) : List Char :=
   match a with
   | .all => s
-  | a => s.map fun c => if a.ok c then c else ' '
+  | .expr e => filterRegex (parseSetExpr e) ' ' s
+  | .table rs => filterCallable (inRanges rs) ' ' s
 
 /-- `line.lower()` if `lower_case` -/
 def lowered (ops : TextOps) (lowerCase : Bool) (line : List Char) : List Char :=
@@ -536,7 +607,13 @@ def seenG (ops : TextOps) (lowerCase : Bool) (ctx : ContextStructure) (rawLine :
         if c.isEmpty then [] else removeSpecial (lowered ops lowerCase c)
 
 /-- the first `(line, element)` at which a callable that raises on the
-    characters `raises` is handed such a character -/
+    characters `raises` is handed such a character.
+
+    MODELLING LIMIT: `raises : Char → Bool` describes a callable whose failure
+    depends only on the character it is handed.  A callable that raises on its
+    n-th call, after some time, or depending on any other state cannot be
+    expressed; the model (and every theorem about `.callableRaised`) says
+    nothing about such a callable. -/
 def firstFault (raises : Char → Bool) (ops : TextOps) (lowerCase : Bool) (ctx : ContextStructure) :
     Nat → List (List Char) → Option (Nat × Nat)
   | _, [] => none
@@ -600,8 +677,10 @@ def FileContent.readable : FileContent → List (List Char) × Bool
   | .other _ => ([], true)
 
 /-- `create_event_file(corpus_file, event_file, …)` as a function of the file
-    system, for arbitrary `TextOps` and a callable that raises on `raises`
-    (ignored unless `allowed_symbols` is a callable).  Order of the checks as in
+    system, for arbitrary `TextOps` and a callable that raises exactly when it
+    is handed a character of `raises` (ignored unless `allowed_symbols` is a
+    callable; a callable whose failure depends on anything but the character —
+    e.g. on the number of calls — is outside the model, see `firstFault`).  Order of the checks as in
     the code: pattern (272), existing event file (282), corpus (367), then the
     event file is created. -/
 def createEventFileX (raises : Char → Bool) (ops : TextOps) (o : Options)
